@@ -157,3 +157,12 @@ Qed.
 Lemma sweep_byte (P : N -> bool) :
   forallb P (N_range 256) = true -> forall b, b < 256 -> P b = true.
 Proof. intros H b Hb. apply (sweep_lt P 256 H). exact Hb. Qed.
+
+(* reduce [nthN l k] for a literal index k and an explicit list prefix *)
+Ltac nthN_red :=
+  unfold nthN;
+  repeat match goal with
+         | |- context [N.to_nat ?p] =>
+           let v := eval compute in (N.to_nat p) in change (N.to_nat p) with v
+         end;
+  cbn [nth].
